@@ -7,8 +7,11 @@ import sys
 import time
 
 VERIF = os.path.dirname(os.path.dirname(os.path.abspath(__file__)))
-EVID = os.path.join(VERIF, "evidence")
-REPLAY = os.path.join(VERIF, "replay")
+# VERIF_OUT redirects evidence and replay files (used by tools/sweep_seeds.py lanes, which run the checks
+# against mutated scratch worktrees and must not touch the evidence of the real tree)
+_OUT = os.environ.get("VERIF_OUT", VERIF)
+EVID = os.path.join(_OUT, "evidence")
+REPLAY = os.path.join(_OUT, "replay")
 FINDINGS = os.path.join(VERIF, "known_findings.json")
 
 LEVELS = {}  # property -> level, filled from MANIFEST.json
@@ -99,8 +102,10 @@ class Ctx:
         the case into a KNOWN-FINDING, anything else is a VIOLATION."""
         for f in self.findings:
             if fnmatch.fnmatchcase(key, f["key"]):
-                self.known_hit.setdefault(f["key"], [f, 0, key, what])
+                self.known_hit.setdefault(f["key"], [f, 0, key, what, {}])
                 self.known_hit[f["key"]][1] += 1
+                ck = self.known_hit[f["key"]][4]
+                ck[key] = ck.get(key, 0) + 1       # every concrete key a pattern absorbed (audit against masking)
                 return False
         n = self._vkeys.get(key, 0)
         self._vkeys[key] = n + 1
@@ -133,7 +138,8 @@ class Ctx:
             "wall_s": round(time.time() - self.t0, 2),
             "violations": nviol,
             "known_findings_observed": [
-                {"key": k, "count": v[1], "example": v[2]} for k, v in self.known_hit.items()],
+                {"key": k, "count": v[1], "example": v[2],
+                 "concrete_keys": dict(sorted(v[4].items())[:200])} for k, v in self.known_hit.items()],
         }
         os.makedirs(EVID, exist_ok=True)
         tmp = os.path.join(EVID, self.pid + ".json.tmp")
